@@ -24,7 +24,7 @@ ASSUMPTIONS = ["versions are Python ints; integral-float / bool versions are gra
                "cryptography raw Ed25519 as oracle primitive (cross-checked in C19)"]
 
 FLAWS = ["none", "none", "none", "version", "version", "trusted_sigs", "own_sigs", "type_T", "type_N", "noroot_T", "noroot_N",
-         "malformed_T", "malformed_N", "junk_entry", "self_appointed", "threshold_from_new", "spelling_dups"]
+         "malformed_T", "malformed_N", "junk_entry", "self_appointed", "threshold_from_new", "spelling_dups", "dup_keys_T", "dup_keys_N"]
 VERSION_PLANS = ["v", "v-1", "v+2", "1", "huge"]
 ENTRY_STATES = ["valid", "valid", "valid", "valid", "nonce", "raw_shape", "bitflip", "other_payload", "misfiled"]
 
@@ -94,6 +94,11 @@ def root_pairs(draw):
     ns = GM.signed_part("root", {"root": {"pubkeys": [pubs[i] for i in KN], "threshold": tN},
                                  "key_mgr": {"pubkeys": pubs[-1:], "threshold": 1}}, version=vN,
                         extra=draw(st.one_of(st.none(), st.dictionaries(G.strings, G.scalars, max_size=2))))
+    if flaw == "dup_keys_T":
+        # the same key listed twice, threshold 2, one signer: not well-formed metadata, and one signature must not count twice
+        ts["delegations"]["root"] = {"pubkeys": [pubs[KT[0]], pubs[KT[0]]], "threshold": 2}
+    if flaw == "dup_keys_N":
+        ns["delegations"]["root"] = {"pubkeys": [pubs[KN[0]]] * 2 + [pubs[i] for i in KN[1:]], "threshold": max(2, tN)}
     if flaw == "type_T":
         ts["type"] = "key_mgr"
     if flaw == "type_N":
@@ -131,6 +136,10 @@ def root_pairs(draw):
         N["signatures"][pubs[i]] = e
     if flaw == "junk_entry":
         N["signatures"][draw(G.strings)] = draw(GE.JUNK_VALUES)
+    if flaw in ("none", "version", "trusted_sigs") and draw(st.booleans()):
+        # harmless extra entries under non-key names (well-formed values keep the offer well-formed metadata)
+        for k in draw(st.lists(st.one_of(G.strings, st.sampled_from(["cl\u00e9-1", "\u952e", "k\u00e4se", "\U0001f511"])), max_size=2)):
+            N["signatures"].setdefault(k, {"other_headers": "04", "signature": "ab" * 64})
     if flaw == "spelling_dups":
         for i in signers:
             if pubs[i] in N["signatures"]:
@@ -139,7 +148,7 @@ def root_pairs(draw):
     # T is signed by somebody too (irrelevant to the rule, but realistic)
     if draw(st.booleans()):
         GM.sign_envelope(T, [seeds[i] for i in KT[:1]], True)
-    return {"T": T, "N": N, "flaw": flaw}
+    return {"T": T, "N": N, "flaw": flaw, "seeds": [x.hex() for x in seeds]}
 
 
 def conjuncts(T, N):
@@ -201,6 +210,29 @@ def history_probes(T, N):
     return n
 
 
+def cross_mode_probe(T, N, seed_hexes):
+    """History across verification modes and functions: the offer, signed with RAW ed25519 signatures by enough root keys, is
+    first verified legitimately as a raw-mode delegation; then the same signature values are re-wrapped as OpenPGP-shaped
+    entries and offered to verify_root, which must judge them as OpenPGP-mode signatures (they are not)."""
+    if ref_schema.schema(T)[0] != "yes" or ref_schema.schema(N)[0] != "yes" or "root" not in T["signed"]["delegations"]:
+        return 0
+    by_pub = {keys.pub_hex(bytes.fromhex(h)): bytes.fromhex(h) for h in seed_hexes}
+    rule = T["signed"]["delegations"]["root"]
+    signers = [by_pub[p] for p in rule["pubkeys"] if p in by_pub]
+    own = N["signed"]["delegations"].get("root", {"pubkeys": []})
+    signers += [by_pub[p] for p in own["pubkeys"] if p in by_pub and by_pub[p] not in signers]
+    if not signers:
+        return 0
+    B = canon(N["signed"])
+    raw = {"signatures": {keys.pub_hex(x): {"signature": keys.sign_raw(x, B).hex()} for x in signers}, "signed": copy.deepcopy(N["signed"])}
+    RV.outcome(A.verify_delegation, "root", raw, copy.deepcopy(T), gpg=False)
+    RV.outcome(A.verify_signable, raw, rule["pubkeys"], rule["threshold"], gpg=False)
+    fake = {"signatures": {k: {"other_headers": "04001608", "signature": v["signature"]} for k, v in raw["signatures"].items()},
+            "signed": copy.deepcopy(N["signed"])}
+    RV.outcome(A.verify_signable, copy.deepcopy(fake), rule["pubkeys"], rule["threshold"], gpg=False)
+    return _compare(copy.deepcopy(T), fake, "raw signatures, verified in raw mode first, re-wrapped as OpenPGP-shaped entries")
+
+
 def check_pair(case):
     T, N = case["T"], case["N"]
     t0, n0 = copy.deepcopy(T), copy.deepcopy(N)
@@ -212,6 +244,7 @@ def check_pair(case):
                         bucket=("false accept" if observed == "accept" else "false reject/class " + observed)
                         + " verify_root")
     probes = history_probes(t0, n0)
+    probes += cross_mode_probe(t0, n0, case.get("seeds", []))
     c = conjuncts(t0, n0)
     false_ones = [k for k, v in c.items() if v is False or v == "no"]
     rotated = (c.get("rootdeleg") and T["signed"]["delegations"]["root"]["pubkeys"]
